@@ -259,6 +259,30 @@ Unregister(t) ==
           /\ UNCHANGED <<mem, kprev, frozen>>
           /\ last' = TLCEval(a @@ [exc |-> "none", idx |-> Idx(defs', reg')])
 
+(* manager.load(dump, overwrite) on the manager ITSELF: the entries are taken in order; an entry whose target is already defined replaces that   *)
+(* definition (overwrite) or is skipped; nothing is evaluated and nothing runs, so the loaded targets are stale until an update reaches them.   *)
+(* A dump may name the same target more than once (the later entry wins / with overwrite = FALSE the first one stays).                          *)
+RECURSIVE LoadFold(_, _, _)
+LoadFold(D, sq, ow) == IF sq = <<>> THEN D
+                       ELSE LET l == Head(sq)[1] e == Head(sq)[2] IN
+                            LoadFold(IF D[l] # NoDef /\ ~ow THEN D ELSE [D EXCEPT ![l] = e], Tail(sq), ow)
+LoadMenu  == LET e1 == CHOOSE e \in Menu : TRUE IN {e1, CHOOSE e \in Menu \ {e1} : TRUE}         \* two expressions of the menu
+LoadPairs == ExprTargets \X LoadMenu
+LoadSeqs  == IF Cardinality(Menu) > 6 THEN {}                                              \* only the universes with a small menu
+             ELSE {<<p>> : p \in LoadPairs} \cup {pq \in LoadPairs \X LoadPairs : pq[1][1] = pq[2][1] /\ pq[1][2] # pq[2][2]}
+Load(sq, ow) ==
+  LET a  == [a |-> "Load", sq |-> sq, ow |-> ow]
+      D1 == LoadFold(defs, sq, ow)
+      ch == {sq[i][1] : i \in 1..Len(sq)} IN
+  /\ \A l \in ch : FreeTarget(l)
+  /\ Acyclic(D1, reg) /\ WellDeclared(D1, reg)
+  /\ IF frozen THEN IF ow \/ \E l \in ch : defs[l] = NoDef THEN Refuse(a)           \* the first register / unregister refuses
+                    ELSE Unchanged /\ last' = a @@ [exc |-> "none"]                  \* every entry skipped
+     ELSE /\ defs' = D1
+          /\ ghost' = {x \in Leaf : x \in ghost \/ (x \in ch /\ D1[x] # defs[x]) \/ (x \in ch /\ ow)}
+          /\ UNCHANGED <<mem, reg, kprev, frozen>>
+          /\ last' = TLCEval(a @@ [exc |-> "none", idx |-> Idx(D1, reg)])
+
 (* manager.register(FunctionTask / LinearKnob); the knob constructor samples its source *)
 RegisterTask(t) ==
   LET a == [a |-> "RegisterTask", t |-> t] IN
@@ -384,6 +408,7 @@ Extra == \/ \E t \in Leaf \cup TaskIds : Unregister(t)
          \/ \E t \in TaskIds : RegisterTask(t)
          \/ Freeze \/ Unfreeze
          \/ \E kind \in {"refresh", "cleanup", "verify", "clone"} : Stutter(kind)
+         \/ \E sq \in LoadSeqs : \E ow \in BOOLEAN : Load(sq, ow)
 
 Fault == \/ \E l \in Leaf : \E v \in ValsOf[l] : SetValueFault(l, v)
          \/ \E l \in ExprTargets : \E e \in Menu : SetExprFault(l, e)
